@@ -325,6 +325,9 @@ def gen_outputs(rng, probe, fail_rate=0.15):
         per = []
         n_extra = rng.randint(0, 3)
         n_dp = rng.randint(1, 5)
+        if rng.random() < 0.15:      # many iterations: ReBench's log shows only the last 20, the file gets them all
+            n_dp = rng.choice([19, 20, 21, 22, 40, 41, 60])
+            n_extra = rng.randint(0, 1)
         dead = rng.random() < fail_rate
         fail_at = rng.randint(1, r['invocations'] + 1) if dead else None
         for inv in range(1, r['invocations'] + 3):
